@@ -90,13 +90,13 @@ Proof. exists stray_witness, (MWorker 0 0 true), 0. vm_compute. split; [left; re
 Print Assumptions C03_disabled_no_probe_at_all_refuted_before_fix.
 
 (* The harness-level ops of the correspondence run (one external action, then the goroutines run until
-   none can move, racy selects resolved by the given bits) are schedules of micro steps: every state the
+   none can move, in the given running order, racy selects resolved by the given bits) are schedules of micro steps: every state the
    correspondence compares with the real code is a state the theorems above talk about. *)
-Theorem C03_macro_is_schedule : forall rc s o choice bits,
-  exists ms, macro rc s o choice bits = run_events rc s ms []
+Theorem C03_macro_is_schedule : forall rc s o choice ord bits,
+  exists ms, macro rc s o choice ord bits = run_events rc s ms []
              /\ fst (run_events rc s ms []) = run_micro rc s ms.
 Proof.
-  intros rc s o choice bits. destruct (macro_sched rc s o choice bits) as [ms H].
+  intros rc s o choice ord bits. destruct (macro_sched rc s o choice ord bits) as [ms H].
   exists ms. split; [exact H|apply run_events_state].
 Qed.
 Print Assumptions C03_macro_is_schedule.
